@@ -66,3 +66,8 @@ CASES += [
     {"name": "state-vector refinement divides the current step (seeded change of round 5)", "kind": "mutant", "rule": "C15-E7", "edits": [
         ("quantarhei/qm/propagators/svpropagator.py", "        self.dt = self.Odt/self.Nref", "        self.dt = self.dt/self.Nref", 1)]},
 ]
+
+CASES += [
+    {"name": "kernel accumulates into the caller's initial vector (the repaired defect)", "kind": "mutant", "rule": "C15-E3", "edits": [
+        ("quantarhei/qm/propagators/oqssvpropagator.py", "    psi2 = numpy.array(psii)\n", "    psi2 = psii\n", 1)]},
+]
